@@ -85,6 +85,24 @@ CLAIMED['C17'] = {
     'technique': 'Coq proof (regex outcome semantics + grammar unambiguity; list refinement for set/get) + extracted-model correspondence',
 }
 
+CLAIMED['C20'] = {
+    'text': 'The normaliser is read (C01) -> optional count repair -> format. Theorems: C20_content_preserved / '
+            'C20_output_rereads (what is written reads back as the same segments up to the documented trimming, from the '
+            'C01 round-trip proofs), C20_idempotent (formatting is a fixed point of read-then-format, so normalising the '
+            'output again changes nothing), C20_fix_only_count / C20_fix_noop (the repair touches the first element only, '
+            'and nothing without a count error), C20_fix_repairs_se/ge/iea (after the repair the reader reports no count '
+            'error, exactly the same other errors and the same state). The model of main() is tied to the code by running '
+            'pyx12.scripts.x12norm.main() on real files for all eol x fixcounting x {stdout, --output, --inplace} '
+            'combinations, comparing sinks with each other and with the model, and applying the four sentences of the '
+            'property to the produced files.',
+    'design_ref': 'DESIGN.md §6 C20',
+    'note': 'Partial by nature: argparse, glob, tempfile, file system and the three sinks are not modelled (the model is a pure '
+            'function bytes -> text); they are covered by the differential runs on real files only. The HL01 repair is '
+            'covered by the runs, not by a theorem. Trusted: Coq kernel; hand transcription of main(); reader/segment models; '
+            'extraction + driver.',
+    'technique': 'Coq proof (round-trip + frame lemmas over the reader model) + correspondence with main() on real files',
+}
+
 NOT_YET = {
 }
 
